@@ -28,6 +28,8 @@ REASONS = {
     'silence': ['ping timeout', 'transport close', 'transport error'],
     'post_msg': [], 'frame_msg': [],
     'send_fault': ['transport close', 'transport error'],
+    # the gateway cancels the task of the pending long-poll (the client hung up): a failure of the transport
+    'poll_cancel': ['transport close', 'transport error'],
 }
 TIMED = ['ping timeout', 'transport close', 'transport error']
 POLLING_CAUSES = ['post_close', 'api_disc', 'api_disc_all', 'post_bad', 'post_oversize', 'send_late', 'silence']
@@ -166,6 +168,8 @@ class Events(core.Scenario):
                     ww.call('send', A, 'never-arrives')
                 elif name == 'silence':
                     pass
+                elif name == 'poll_cancel':
+                    ww.cancel(sc.pollA)
                 elif name == 'post_msg':
                     peer.post(ww, A, '4racing', run=False)
                 elif name == 'frame_msg':
@@ -261,10 +265,12 @@ class Events(core.Scenario):
             if len(evBd) != 1:
                 self.flag('disconnect_count', 'bystander: %d disconnect events (%r)' % (len(evBd), [e[2] for e in evBd]), trigger=trig)
             elif self.horizon == 0.0 and p['causes'] in (['api_disc_all'], ['api_disc']) and \
-                    all(c.done and not c.exc for _, c in self.api_calls) and \
+                    (all(c.done and not c.exc for _, c in self.api_calls) or
+                     (p['impl'] == 'async' and p['causes'] == ['api_disc_all'] and not any(c.exc for _, c in self.api_calls))) and \
                     (evBd[0][2] != 'server disconnect' or evBd[0][3] > 0.01):
-                # (a disconnect() that never returns is C15's subject; here: it returned, so it has ended every session)
-                self.flag('other_session_not_disconnected', 'disconnect call(s) returned, bystander was to be ended by the server at t=0; '
+                # (a disconnect() that never returns is C15's subject; here: it returned, so it has ended every session - or it is
+                # the asyncio disconnect() of everybody, which ends the sessions side by side whether or not one of them keeps it waiting)
+                self.flag('other_session_not_disconnected', 'disconnect call(s) returned (or: asyncio disconnect() of everybody), bystander was to be ended by the server at t=0; '
                           'its disconnect event: %r' % (evBd[0][:4],), trigger=trig)
         rs = getattr(self, 'rejected_sid', None)
         if rs is not None:
@@ -314,6 +320,15 @@ def param_list(ctx):
             for cs in pairs:
                 for dh in (('record', 'yield') if ctx.quick else ('record', 'yield', 'raise')):
                     ps.append({'impl': impl, 'transport': tr, 'causes': list(cs), 'dh': dh})
+            if impl == 'async' and tr == 'polling':
+                # disconnect() of everybody while the first session has no poll waiting (its client is between two polls): the
+                # asyncio server ends the sessions side by side, the other one is not kept waiting
+                for dh in ('record', 'yield'):
+                    ps.append({'impl': impl, 'transport': tr, 'causes': ['api_disc_all'], 'dh': dh, 'poll': False})
+                for dh in DH:
+                    ps.append({'impl': impl, 'transport': tr, 'causes': ['poll_cancel'], 'dh': dh})
+                for cs in (['poll_cancel', 'api_disc'], ['post_close', 'poll_cancel'], ['poll_cancel', 'post_bad']):
+                    ps.append({'impl': impl, 'transport': tr, 'causes': cs, 'dh': 'record'})
             ps.append({'impl': impl, 'transport': tr, 'causes': [causes[0]], 'dh': 'record', 'mh': 'raise'})
             for cs in ([causes[0]], ['api_disc'], ['silence']):
                 ps.append({'impl': impl, 'transport': tr, 'causes': cs, 'dh': 'record', 'handlers': 'legacy'})
